@@ -440,6 +440,12 @@ function Scope:resolve()
     console.info(self.node:format_message('info', "scope resolved %d symbols", count))
   end
   if self.delay then
+    -- this scope will be traversed again before the root scope gets a chance to resolve:
+    -- symbols it may be waiting for (globals with an inferred type) live in the root scope
+    local rootscope = self.context.rootscope
+    if self ~= rootscope then
+      count = count + rootscope:resolve_symbols()
+    end
     self.delay = nil
     count = count + 1
   end
